@@ -57,9 +57,9 @@ class Reporter:
     def fail(s, rule, key, where, msg, witness=None, replay_input=None, variant=None):
         """one obligation failed.  key = <rule>:<file>:<function>:<construct> (no line numbers)."""
         o = s.obl.setdefault(rule, [0, 0])
-        if key in s.vkeys:
-            return
         o[0] += 1
+        if key in s.vkeys:
+            return          # same construct seen through another variant: counted as an instance, reported once
         s.vkeys.add(key)
         s.viol.append(Violation(rule, key, where, msg, witness, replay_input, variant))
 
